@@ -14,6 +14,8 @@ import BvaProofs.Splice
 import BvaProofs.Div
 import BvaProofs.Bytes
 import BvaProofs.Parse
+import BvaProofs.AutoGlue
+import BvaProofs.ListView
 /-!
 # Assembly: invariants of operands and vectors, and discharge of the "fetch" hypotheses
 -/
@@ -274,5 +276,35 @@ theorem AnyBv.valF_getInt_mod (x : AnyBv) (hx : x.Inv) {wJ : Nat} (hJ : WOk wJ) 
         _ ≤ n * wJ := Nat.mul_le_mul_right wJ hi
         _ = wJ * n := Nat.mul_comm _ _
     simp [this, BV.bit]
+
+end Bva
+
+namespace Bva
+
+/-- fixed capacity of a vector's type (`none` for the growable types) -/
+def Vec.capOpt : Vec → Option Nat
+  | .f w r => some (r.data.size * w)
+  | _ => none
+
+/-- does a length fit the type's capacity? -/
+def Vec.fits (v : Vec) (n : Nat) : Prop :=
+  match v.capOpt with
+  | some c => n ≤ c
+  | none => True
+
+theorem AnyBv.Inv.src {x : AnyBv} (h : x.Inv) : spl_Src x 8 ∧ spl_Src x 64 := by
+  cases x with
+  | f w b => exact ⟨spl_Src.of_f b (h.1.compat wok8) h.2, spl_Src.of_f b (h.1.compat wok64) h.2⟩
+  | d b => exact ag_src_of_d b h
+
+theorem Vec.abs_wf {v : Vec} (h : v.Inv) : v.abs.WF := by
+  have := h.any.wf; rwa [Vec.any_abs] at this
+
+theorem Vec.abs_len (v : Vec) : v.abs.len = v.len := by cases v <;> rfl
+
+theorem Vec.Inv.bvinv {b : Bv} (h : (Vec.a b).Inv) : div_BvInv b := by
+  cases b <;> exact h
+theorem Vec.Inv.of_bvinv {b : Bv} (h : div_BvInv b) : (Vec.a b).Inv := by
+  cases b <;> exact h
 
 end Bva
